@@ -826,3 +826,352 @@ fn actions(th: bool) -> Vec<Act> {
     }
     acts
 }
+
+// ------------------------------------------------------------------ GLV action lifecycles (for C23)
+
+#[derive(Clone, Copy, Debug, PartialEq, Eq, Hash)]
+pub enum LWho {
+    Owner,
+    Keeper,
+    Stranger,
+}
+
+#[derive(Clone, Copy, Debug)]
+pub enum LAct {
+    Create(usize),
+    Exec(usize, LWho),
+    Close(usize, LWho),
+    /// clock past the request expiration, feeds re-published
+    Expire,
+}
+
+#[derive(Clone, Copy, Debug, PartialEq, Eq, Hash)]
+pub enum LPhase {
+    Absent,
+    Pending,
+    Completed,
+    Cancelled,
+}
+
+#[derive(Clone)]
+pub struct LSt {
+    db: Db,
+    now: i64,
+    phase: [LPhase; 4],
+    /// escrow (A, B, market token, GLV token) right after creation
+    snap: [[u64; 4]; 4],
+}
+
+struct LSlot {
+    deposit: bool,
+    /// deposit: (market tokens, long, short); withdrawal: GLV tokens
+    amounts: (u64, u64, u64),
+    /// unreachable minimum output: the execution fails softly
+    unreachable: bool,
+    nonce: [u8; 32],
+}
+
+pub struct GlvLife {
+    h: Hist,
+    slots: Vec<LSlot>,
+    acts: Vec<LAct>,
+}
+
+impl GlvLife {
+    fn account(&self, sl: &LSlot) -> Pubkey {
+        let w = &self.h.g.w;
+        let seed = if sl.deposit { GlvDeposit::SEED } else { GlvWithdrawal::SEED };
+        Pubkey::find_program_address(&[seed, w.store.as_ref(), w.user.as_ref(), &sl.nonce], &w.pid).0
+    }
+    fn tokens(&self, db: &Db, who: &Pubkey) -> [u64; 4] {
+        let g = &self.h.g;
+        let m = self.h.markets()[0];
+        [token_amount(db, &ata(who, &g.w.a)), token_amount(db, &ata(who, &g.w.b)), token_amount(db, &ata(who, &m.market_token)), amount22(db, &ata22(who, &g.glv_token))]
+    }
+    fn phase(&self, db: &Db, sl: &LSlot) -> LPhase {
+        let k = self.account(sl);
+        if !db.exists(&k) {
+            return LPhase::Absent;
+        }
+        let st = if sl.deposit { db.pod::<GlvDeposit>(&k).and_then(|d| d.header().action_state().ok()) } else { db.pod::<GlvWithdrawal>(&k).and_then(|d| d.header().action_state().ok()) };
+        match st {
+            Some(ActionState::Pending) => LPhase::Pending,
+            Some(ActionState::Completed) => LPhase::Completed,
+            Some(ActionState::Cancelled) => LPhase::Cancelled,
+            _ => LPhase::Absent,
+        }
+    }
+    fn key_of(&self, who: LWho) -> Pubkey {
+        let w = &self.h.g.w;
+        match who {
+            LWho::Owner => w.user,
+            LWho::Keeper => w.keeper,
+            LWho::Stranger => w.stranger,
+        }
+    }
+    fn prepare(&self, db: &mut Db, sl: &LSlot) {
+        let g = &self.h.g;
+        let m = self.h.markets()[0];
+        let acc = self.account(sl);
+        for (o, mint) in [(acc, m.market_token), (acc, m.long), (acc, m.short), (g.w.user, m.market_token), (g.w.user, m.long), (g.w.user, m.short)] {
+            g.w.ensure_ata(db, &o, &mint);
+        }
+        for o in [acc, g.w.user] {
+            let k = ata22(&o, &g.glv_token);
+            if !db.exists(&k) {
+                db.set(k, token22_acc(g.glv_token, o, 0));
+            }
+        }
+    }
+    fn create(&self, db: &mut Db, sl: &LSlot) -> std::result::Result<(), TxError> {
+        let g = &self.h.g;
+        let w = &g.w;
+        let m = self.h.markets()[0];
+        let owner = w.user;
+        let acc = self.account(sl);
+        self.prepare(db, sl);
+        if sl.deposit {
+            let accounts = gmsol_store::accounts::CreateGlvDeposit {
+                owner, receiver: owner, store: w.store, market: m.market, glv: g.glv, glv_deposit: acc, glv_token: g.glv_token, market_token: m.market_token,
+                initial_long_token: Some(m.long), initial_short_token: Some(m.short),
+                market_token_source: Some(ata(&owner, &m.market_token)), initial_long_token_source: Some(ata(&owner, &m.long)), initial_short_token_source: Some(ata(&owner, &m.short)),
+                glv_token_escrow: ata22(&acc, &g.glv_token), market_token_escrow: ata(&acc, &m.market_token), initial_long_token_escrow: Some(ata(&acc, &m.long)), initial_short_token_escrow: Some(ata(&acc, &m.short)),
+                system_program: sys(), token_program: spl_token::ID, glv_token_program: T22, associated_token_program: spl_associated_token_account::ID,
+            };
+            let params = gmsol_store::ops::glv::CreateGlvDepositParams { execution_lamports: 5_000_000, long_token_swap_length: 0, short_token_swap_length: 0, initial_long_token_amount: sl.amounts.1, initial_short_token_amount: sl.amounts.2, market_token_amount: sl.amounts.0, min_market_token_amount: 0, min_glv_token_amount: if sl.unreachable { u64::MAX } else { 0 }, should_unwrap_native_token: false };
+            process(db, &ix(w.pid, accounts, gmsol_store::instruction::CreateGlvDeposit { nonce: sl.nonce, params }), &[owner])
+        } else {
+            let accounts = gmsol_store::accounts::CreateGlvWithdrawal {
+                owner, receiver: owner, store: w.store, market: m.market, glv: g.glv, glv_withdrawal: acc, glv_token: g.glv_token, market_token: m.market_token, final_long_token: m.long, final_short_token: m.short,
+                glv_token_source: ata22(&owner, &g.glv_token), glv_token_escrow: ata22(&acc, &g.glv_token), market_token_escrow: ata(&acc, &m.market_token), final_long_token_escrow: ata(&acc, &m.long), final_short_token_escrow: ata(&acc, &m.short),
+                system_program: sys(), token_program: spl_token::ID, glv_token_program: T22, associated_token_program: spl_associated_token_account::ID,
+            };
+            let params = gmsol_store::ops::glv::CreateGlvWithdrawalParams { execution_lamports: 5_000_000, long_token_swap_length: 0, short_token_swap_length: 0, glv_token_amount: sl.amounts.0, min_final_long_token_amount: if sl.unreachable { u64::MAX } else { 0 }, min_final_short_token_amount: 0, should_unwrap_native_token: false };
+            process(db, &ix(w.pid, accounts, gmsol_store::instruction::CreateGlvWithdrawal { nonce: sl.nonce, params }), &[owner])
+        }
+    }
+    fn execute(&self, db: &mut Db, sl: &LSlot, by: Pubkey) -> std::result::Result<(), TxError> {
+        let g = &self.h.g;
+        let w = &g.w;
+        let m = self.h.markets()[0];
+        let acc = self.account(sl);
+        let vault = ata(&g.glv, &m.market_token);
+        let mut i = if sl.deposit {
+            let accounts = gmsol_store::accounts::ExecuteGlvDeposit {
+                authority: by, store: w.store, token_map: w.token_map, oracle: w.oracle, glv: g.glv, market: m.market, glv_deposit: acc, glv_token: g.glv_token, market_token: m.market_token,
+                initial_long_token: Some(m.long), initial_short_token: Some(m.short),
+                glv_token_escrow: ata22(&acc, &g.glv_token), market_token_escrow: ata(&acc, &m.market_token), initial_long_token_escrow: Some(ata(&acc, &m.long)), initial_short_token_escrow: Some(ata(&acc, &m.short)),
+                initial_long_token_vault: Some(w.vault(&m.long)), initial_short_token_vault: Some(w.vault(&m.short)), market_token_vault: vault,
+                token_program: spl_token::ID, glv_token_program: T22, system_program: sys(), chainlink_program: None, event_authority: w.event_authority, program: w.pid,
+            };
+            ix(w.pid, accounts, gmsol_store::instruction::ExecuteGlvDeposit { execution_lamports: 5_000, throw_on_execution_error: false })
+        } else {
+            let accounts = gmsol_store::accounts::ExecuteGlvWithdrawal {
+                authority: by, store: w.store, token_map: w.token_map, oracle: w.oracle, glv: g.glv, market: m.market, glv_withdrawal: acc, glv_token: g.glv_token, market_token: m.market_token, final_long_token: m.long, final_short_token: m.short,
+                glv_token_escrow: ata22(&acc, &g.glv_token), market_token_escrow: ata(&acc, &m.market_token), final_long_token_escrow: ata(&acc, &m.long), final_short_token_escrow: ata(&acc, &m.short),
+                market_token_withdrawal_vault: w.vault(&m.market_token), final_long_token_vault: w.vault(&m.long), final_short_token_vault: w.vault(&m.short), market_token_vault: vault,
+                token_program: spl_token::ID, glv_token_program: T22, system_program: sys(), chainlink_program: None, event_authority: w.event_authority, program: w.pid,
+            };
+            ix(w.pid, accounts, gmsol_store::instruction::ExecuteGlvWithdrawal { execution_lamports: 5_000, throw_on_execution_error: false })
+        };
+        i.accounts.extend(self.h.glv_remaining(db));
+        i.accounts.extend(self.h.feeds_sorted());
+        process(db, &i, &[by])
+    }
+    fn close(&self, db: &mut Db, sl: &LSlot, by: Pubkey) -> std::result::Result<(), TxError> {
+        let g = &self.h.g;
+        let w = &g.w;
+        let m = self.h.markets()[0];
+        let owner = w.user;
+        let acc = self.account(sl);
+        if sl.deposit {
+            let accounts = gmsol_store::accounts::CloseGlvDeposit {
+                executor: by, store: w.store, store_wallet: w.store_wallet, owner, receiver: owner, glv_deposit: acc, market_token: m.market_token,
+                initial_long_token: Some(m.long), initial_short_token: Some(m.short), glv_token: g.glv_token,
+                market_token_escrow: ata(&acc, &m.market_token), initial_long_token_escrow: Some(ata(&acc, &m.long)), initial_short_token_escrow: Some(ata(&acc, &m.short)), glv_token_escrow: ata22(&acc, &g.glv_token),
+                market_token_ata: ata(&owner, &m.market_token), initial_long_token_ata: Some(ata(&owner, &m.long)), initial_short_token_ata: Some(ata(&owner, &m.short)), glv_token_ata: ata22(&owner, &g.glv_token),
+                system_program: sys(), token_program: spl_token::ID, glv_token_program: T22, associated_token_program: spl_associated_token_account::ID, event_authority: w.event_authority, program: w.pid,
+            };
+            process(db, &ix(w.pid, accounts, gmsol_store::instruction::CloseGlvDeposit { reason: "done".into() }), &[by])
+        } else {
+            let accounts = gmsol_store::accounts::CloseGlvWithdrawal {
+                executor: by, store: w.store, store_wallet: w.store_wallet, owner, receiver: owner, glv_withdrawal: acc, market_token: m.market_token, final_long_token: m.long, final_short_token: m.short, glv_token: g.glv_token,
+                market_token_escrow: ata(&acc, &m.market_token), final_long_token_escrow: ata(&acc, &m.long), final_short_token_escrow: ata(&acc, &m.short),
+                market_token_ata: ata(&owner, &m.market_token), final_long_token_ata: ata(&owner, &m.long), final_short_token_ata: ata(&owner, &m.short), glv_token_escrow: ata22(&acc, &g.glv_token), glv_token_ata: ata22(&owner, &g.glv_token),
+                system_program: sys(), token_program: spl_token::ID, glv_token_program: T22, associated_token_program: spl_associated_token_account::ID, event_authority: w.event_authority, program: w.pid,
+            };
+            process(db, &ix(w.pid, accounts, gmsol_store::instruction::CloseGlvWithdrawal { reason: "done".into() }), &[by])
+        }
+    }
+    /// what a cancelled execution must not touch: pools, balances and supply of both markets, the GLV's recorded balances,
+    /// the GLV vaults and the GLV supply
+    fn guarded(&self, db: &Db) -> Vec<Vec<u128>> {
+        let g = &self.h.g;
+        let mut v = vec![vec![supply22(db, &g.glv_token) as u128]];
+        for m in self.h.markets() {
+            let mut view = crate::perp::market_view(&g.w, db, m);
+            view.push(token_amount(db, &ata(&g.glv, &m.market_token)) as u128);
+            view.push(self.h.glv_balance(db, m) as u128);
+            v.push(view);
+        }
+        v
+    }
+}
+
+impl Machine for GlvLife {
+    type State = LSt;
+    type Action = LAct;
+    fn actions(&self) -> &[LAct] {
+        &self.acts
+    }
+    fn key(&self, s: &LSt) -> u128 {
+        use std::hash::Hasher;
+        let mut h = std::collections::hash_map::DefaultHasher::new();
+        s.db.hash_into(&mut h);
+        mc_core::hash128(&(h.finish(), s.now, s.phase, s.snap))
+    }
+    fn step(&self, s: &LSt, a: &LAct, out: &mut StepOut) -> LSt {
+        W::set_time(s.now);
+        gmsol_programs::model::clock_verif::set_now(Some(s.now));
+        crate::svm::set_last_restart_slot(0);
+        let mut n = s.clone();
+        let w = &self.h.g.w;
+        let res = match *a {
+            LAct::Expire => {
+                n.now += 4_000;
+                w.set_feeds(&mut n.db, n.now, PRICES[0].0, PRICES[0].1);
+                out.label = "env";
+                return n;
+            }
+            LAct::Create(i) => {
+                let r = self.create(&mut n.db, &self.slots[i]);
+                if r.is_ok() {
+                    n.snap[i] = self.tokens(&n.db, &self.account(&self.slots[i]));
+                }
+                r
+            }
+            LAct::Exec(i, who) => self.execute(&mut n.db, &self.slots[i], self.key_of(who)),
+            LAct::Close(i, who) => {
+                self.prepare(&mut n.db, &self.slots[i]);
+                self.close(&mut n.db, &self.slots[i], self.key_of(who))
+            }
+        };
+        out.label = if res.is_ok() { "ok" } else { "err" };
+        if let Err(e) = &res {
+            if e.is_panic() {
+                // an abort is a failed transaction: nothing is committed (the property allows executions that fail hard)
+                out.count("instructions_aborted_by_a_panic", 1);
+            }
+        }
+        for (i, sl) in self.slots.iter().enumerate() {
+            let (old, new) = (s.phase[i], self.phase(&n.db, sl));
+            n.phase[i] = new;
+            let touched = matches!(*a, LAct::Create(j) | LAct::Exec(j, _) | LAct::Close(j, _) if j == i);
+            let legal = match (old, new) {
+                (x, y) if x == y => true,
+                (LPhase::Absent, LPhase::Pending) => matches!(a, LAct::Create(_)) && touched,
+                (LPhase::Pending, LPhase::Completed) | (LPhase::Pending, LPhase::Cancelled) => matches!(a, LAct::Exec(_, LWho::Keeper)) && touched,
+                (_, LPhase::Absent) => matches!(a, LAct::Close(..)) && touched,
+                _ => false,
+            };
+            if !legal {
+                out.fail("C23/illegal_state_transition", format!("{a:?}: GLV action slot {i} moved {old:?} -> {new:?}"));
+            }
+        }
+        match *a {
+            LAct::Exec(i, who) => {
+                let sl = &self.slots[i];
+                if res.is_ok() && who != LWho::Keeper {
+                    out.fail("C23/executed_by_non_keeper", format!("{a:?} succeeded"));
+                }
+                if res.is_ok() && s.phase[i] != LPhase::Pending {
+                    out.fail("C23/executed_twice_or_absent", format!("{a:?} succeeded in phase {:?}", s.phase[i]));
+                }
+                if res.is_ok() && who == LWho::Keeper {
+                    if sl.unreachable && n.phase[i] != LPhase::Cancelled {
+                        out.fail("C23/unreachable_minimum_not_cancelled", format!("{a:?}: phase {:?}", n.phase[i]));
+                    }
+                    if n.phase[i] == LPhase::Cancelled {
+                        out.count("glv_actions_cancelled_by_execution", 1);
+                        if self.guarded(&n.db) != self.guarded(&s.db) {
+                            out.fail("C23/cancelled_execution_touched_a_market", format!("{a:?}: a market, the GLV account, a GLV vault or the GLV supply changed"));
+                        }
+                        if self.tokens(&n.db, &self.account(sl)) != s.snap[i] {
+                            out.fail("C23/cancelled_execution_did_not_restore_escrow", format!("{a:?}: escrow {:?}, at creation {:?}", self.tokens(&n.db, &self.account(sl)), s.snap[i]));
+                        }
+                    } else if n.phase[i] == LPhase::Completed {
+                        out.count("glv_actions_completed", 1);
+                    }
+                }
+            }
+            LAct::Close(i, who) => {
+                let sl = &self.slots[i];
+                let expect = s.phase[i] != LPhase::Absent && match who { LWho::Owner => true, LWho::Keeper => s.phase[i] != LPhase::Pending, LWho::Stranger => false };
+                if res.is_ok() != expect {
+                    let key = if res.is_ok() { if who == LWho::Stranger { "C23/closed_by_stranger" } else { "C23/pending_action_closed_by_keeper" } } else { "C23/legitimate_close_rejected" };
+                    out.fail(key, format!("{a:?} in phase {:?} returned {res:?}", s.phase[i]));
+                }
+                if res.is_ok() {
+                    let esc = self.tokens(&s.db, &self.account(sl));
+                    let (before, after) = (self.tokens(&s.db, &w.user), self.tokens(&n.db, &w.user));
+                    let want = [before[0] + esc[0], before[1] + esc[1], before[2] + esc[2], before[3] + esc[3]];
+                    if after != want {
+                        out.fail("C23/escrow_not_returned", format!("{a:?} ({:?}): owner held {before:?}, escrow {esc:?}, owner now holds {after:?}", s.phase[i]));
+                    }
+                    if matches!(s.phase[i], LPhase::Pending | LPhase::Cancelled) && esc != s.snap[i] {
+                        out.fail("C23/escrow_not_returned", format!("{a:?} ({:?}): escrow at close {esc:?}, at creation {:?}", s.phase[i], s.snap[i]));
+                    }
+                    if self.tokens(&n.db, &self.account(sl)) != [0; 4] {
+                        out.fail("C23/tokens_left_in_escrow_after_close", format!("{a:?}"));
+                    }
+                }
+            }
+            _ => {}
+        }
+        n
+    }
+}
+
+/// third machine of C23: GLV deposit / withdrawal lifecycles
+pub fn lifecycle(rep: &mut Report, cli: &Cli) {
+    let th = cli.tier.thorough();
+    let (mut db, g) = pricing_world();
+    W::set_time(1_000);
+    gmsol_programs::model::clock_verif::set_now(Some(1_000));
+    let h = Hist { g, acts: vec![], probe_round_trips: false };
+    // the owner already holds GLV tokens (a real deposit before the exploration)
+    let r = h.run_deposit(&mut db, 0, 8_000_000_000, 0, 0, true);
+    assert_eq!(r.outcome, Outcome::Completed, "glv lifecycle seed deposit");
+    let slots = vec![
+        LSlot { deposit: true, amounts: (2_000_000_000, 0, 0), unreachable: false, nonce: [0xC1; 32] },
+        LSlot { deposit: true, amounts: (0, 500_000, 3_000_000), unreachable: true, nonce: [0xC2; 32] },
+        LSlot { deposit: false, amounts: (r.minted / 2, 0, 0), unreachable: false, nonce: [0xC3; 32] },
+        LSlot { deposit: false, amounts: (r.minted / 4, 0, 0), unreachable: true, nonce: [0xC4; 32] },
+    ];
+    let n = if th { 4 } else { 3 };
+    let mut acts = vec![];
+    for i in 0..n {
+        acts.extend([LAct::Create(i), LAct::Exec(i, LWho::Keeper), LAct::Exec(i, LWho::Stranger), LAct::Close(i, LWho::Owner), LAct::Close(i, LWho::Keeper), LAct::Close(i, LWho::Stranger)]);
+    }
+    acts.push(LAct::Expire);
+    let m = GlvLife { h, slots, acts };
+    let start = LSt { db, now: 1_000, phase: [LPhase::Absent; 4], snap: [[0; 4]; 4] };
+    if let Some(rv) = &cli.replay {
+        e2::replay_into(rep, &m, &[start], rv);
+        gmsol_programs::model::clock_verif::set_now(None);
+        return;
+    }
+    let depth = if th { 6 } else { 5 };
+    let o = e2::explore(rep, "GLV deposit / withdrawal lifecycles", &m, vec![start], &e2::Config { depth, max_states: 3_000_000 }, json!({"machine": "glvlife"}));
+    for k in ["Create:ok", "Exec:ok", "Exec:err", "Close:ok", "Close:err"] {
+        if o.histogram.get(k).copied().unwrap_or(0) == 0 && rep.violations_total() == 0 {
+            rep.machinery(format!("vacuous GLV lifecycle exploration: outcome {k} never occurred"));
+        }
+    }
+    for k in ["glv_actions_cancelled_by_execution", "glv_actions_completed"] {
+        if o.counters.get(k).copied().unwrap_or(0) == 0 && rep.violations_total() == 0 {
+            rep.machinery(format!("vacuous GLV lifecycle exploration: {k} never occurred"));
+        }
+    }
+    gmsol_programs::model::clock_verif::set_now(None);
+}
